@@ -10,6 +10,8 @@
      c16.capq    : state of the victim's outbound queue OBJECT captured right before the
                    blacklisting: none | open | closed
      c16.lp      : PubSub.ListPeers(t) for the topics in use
+     c16.writes  : Write calls on streams to the peer that the node's host handed to the transport so far
+                   (bl[i].wr is that counter at the instant of the Add)
 
    The replay is deterministic, so the spec has exactly one behaviour: one step per line.
    Monitors are built from OBSERVED events (Recv / Deliver / Send events, frames on the wire)
@@ -27,10 +29,11 @@ VARIABLES l,        \* cursor
           sent,     \* [p, m, n] : Send events carrying m to p
           seenBl,   \* <<p, n>> of the blacklist entries seen on earlier lines
           wr,       \* wr[p] : frames written to p since it was blacklisted through the API
+          pwr,      \* c16.writes of the previous line (Write calls handed to the transport, per peer)
           upset,    \* peers whose outbound stream is established according to the tracer (Up without a later Down)
           info      \* the scenario's reset arguments
 
-tvars == <<l, recvd, dlv, sent, seenBl, wr, upset, info>>
+tvars == <<l, recvd, dlv, sent, seenBl, wr, pwr, upset, info>>
 
 L == Trace[l]
 More == l <= Len(Trace)
@@ -166,6 +169,7 @@ FramesAfter(i) ==
     ELSE IF Fresh(i) THEN Cardinality({k \in DOMAIN L.out[p] : L.out[p][k].t >= BL[i].t})
     ELSE Len(L.out[p])
 WrOf(p) == IF p \in DOMAIN wr THEN wr[p] ELSE 0
+PrevWrites(p) == IF p \in DOMAIN pwr THEN pwr[p] ELSE 0
 
 \* at that moment
 VApiMoment ==
@@ -185,6 +189,10 @@ VApiAfter ==
               THEN {V("P_C16_Api", "after", "", p, FALSE, "open-queue")} ELSE {})
            \cup (IF WrOf(p) <= 1 /\ WrOf(p) + FramesAfter(i) > 1
                    THEN {V("P_C16_Api", "after", "", p, FALSE, "sent")} ELSE {})
+           \* the same at the node's own network interface: Write calls after the instant of the Add (at most the one
+           \* Write that was in progress: the writer sits inside it with the RPC it had popped; its next Pop fails)
+           \cup (IF L.c16.writes[p] > BL[i].wr + 1 /\ (Fresh(i) \/ PrevWrites(p) <= BL[i].wr + 1)
+                   THEN {V("P_C16_Api", "after", "", p, FALSE, "written")} ELSE {})
            : i \in ApiNow}
 
 \* the configured implementation answers Contains(p) = TRUE while the entry is alive
@@ -202,11 +210,11 @@ Evals ==
 
 -----------------------------------------------------------------------------
 TInit == /\ TLCSet(1, 0) /\ TLCSet(2, 0) /\ TLCSet(3, 0)
-         /\ l = 1 /\ recvd = {} /\ dlv = {} /\ sent = {} /\ seenBl = {} /\ wr = <<>> /\ upset = {} /\ info = NoInfo
+         /\ l = 1 /\ recvd = {} /\ dlv = {} /\ sent = {} /\ seenBl = {} /\ wr = <<>> /\ pwr = <<>> /\ upset = {} /\ info = NoInfo
 
 TReset ==
     /\ More /\ IsReset
-    /\ recvd' = {} /\ dlv' = {} /\ sent' = {} /\ seenBl' = {} /\ wr' = <<>> /\ upset' = {}
+    /\ recvd' = {} /\ dlv' = {} /\ sent' = {} /\ seenBl' = {} /\ wr' = <<>> /\ pwr' = <<>> /\ upset' = {}
     /\ info' = [pos |-> L.act.cfg.pos, how |-> L.act.cfg.how, by |-> L.act.cfg.by, stage |-> L.act.cfg.stage,
                 impl |-> L.act.cfg.impl, path |-> L.act.cfg.path]
     /\ l' = l + 1
@@ -220,6 +228,7 @@ TStep ==
     /\ seenBl' = seenBl \cup {<<BL[i].p, BL[i].n>> : i \in DOMAIN BL}
     /\ wr' = [p \in {BL[i].p : i \in ApiNow} |->
                 LET i == CHOOSE x \in ApiNow : BL[x].p = p IN WrOf(p) + FramesAfter(i)]
+    /\ pwr' = L.c16.writes
     /\ upset' = UpAfter
     /\ info' = info
     /\ l' = l + 1
